@@ -243,6 +243,20 @@ impl<P: RuntimeProvider + Send + Sync> SqliteZoneHandler<P> {
             }
         }
 
+        // a journal the server wrote always starts with a complete zone dump; without the apex SOA
+        // the journal is empty or was cut inside the initial dump and must not be served
+        let soa_key = RrKey::new(self.origin().clone(), RecordType::SOA);
+        if !self
+            .in_memory
+            .records_get_mut()
+            .get(&soa_key)
+            .is_some_and(|rrset| !rrset.is_empty())
+        {
+            return Err(PersistenceError::Recovery(
+                "journal does not hold a complete zone (no SOA at the origin)",
+            ));
+        }
+
         Ok(())
     }
 
